@@ -491,7 +491,17 @@ MUTANTS = [
                 .map(|(k, v)| (k, JValue::from(v.into_value())))
                 .filter(|(_, v)| !v.is_null())""")]},
     {"id": "c13-deserr-integer-as-i64", "props": ["C13"], "edits": [("src/serde_json.rs", "            Value::Integer(x) => JValue::Number(Number::from(x)),\n            Value::NegativeInteger(x) => JValue::Number(Number::from(x)),\n            Value::Float(f) => match", "            Value::Integer(x) => JValue::Number(Number::from(x as i64)),\n            Value::NegativeInteger(x) => JValue::Number(Number::from(x)),\n            Value::Float(f) => match")]},
-    {"id": "c13-kind-always-float", "props": ["C13"], "edits": [("src/serde_json.rs", """                if n.is_u64() {
+    {"id": "c13-kind-number-is-float", "props": ["C13"], "edits": [("src/serde_json.rs", """                if n.is_u64() {
+                    ValueKind::Integer
+                } else if n.is_i64() {
+                    ValueKind::NegativeInteger
+                } else if n.is_f64() {
+                    ValueKind::Float
+                } else {
+                    panic!();
+                }""", """                let _ = n;
+                ValueKind::Float""")]},
+    {"id": "c13-kind-always-float", "props": ["C13"], "skip": True, "note": "dead `&& false` guards: the ladder is not read (undecided by design)", "edits": [("src/serde_json.rs", """                if n.is_u64() {
                     ValueKind::Integer
                 } else if n.is_i64() {
                     ValueKind::NegativeInteger
